@@ -109,7 +109,9 @@ func runC13(c *Ctx) {
 			}
 			// consumer invocations
 			n := 0
-			for _, ci := range callsIn(h, func(nm string, cc *ssa.CallCommon) bool { return cc.IsInvoke() && cc.Method.Name() == "OnMessageResponse" }) {
+			for _, ci := range callsIn(h, func(nm string, cc *ssa.CallCommon) bool {
+				return cc.IsInvoke() && cc.Method.Name() == "OnMessageResponse"
+			}) {
 				n++
 				recv := ci.Common().Value
 				ex, ok := strip(recv).(*ssa.Extract)
